@@ -211,14 +211,21 @@ inductive AttrVal where
   | plain (v : PStr)
   | charsetMeta (orig : PStr)
   | contentMeta (orig : PStr)
+  /-- `None`: the attribute is written as its bare name -/
+  | novalue
+  /-- a list/tuple value (multi-valued attribute such as `class`): `" ".join(val)` -/
+  | list (vs : List PStr)
   deriving DecidableEq, Repr
 
 def AttrVal.str : AttrVal → PStr
   | .plain v => v
   | .charsetMeta o => o
   | .contentMeta o => o
+  | .novalue => []
+  | .list vs => [32].intercalate vs
 
-/-- `_format_tag` (element.py:2566-2575): substitution only when `eventual_encoding is not None` -/
+/-- `_format_tag` (element.py:2566-2575), the value part: a list is joined first (`isinstance(val, list) or …tuple`), then —
+    `elif` — a placeholder is substituted, and only when `eventual_encoding is not None` -/
 def attrValue (ev : Option PStr) : AttrVal → PStr
   | .plain v => v
   | .charsetMeta o => match ev with
@@ -227,6 +234,8 @@ def attrValue (ev : Option PStr) : AttrVal → PStr
   | .contentMeta o => match ev with
     | none => o
     | some e => substituteContent e o
+  | .novalue => []
+  | .list vs => [32].intercalate vs
 
 def lookupAttr (k : PStr) : List (PStr × AttrVal) → Option AttrVal
   | [] => none
@@ -244,15 +253,27 @@ def asciiLower (s : PStr) : PStr := s.map (fun c => if 65 ≤ c && c ≤ 90 then
 /-- HTML5 style (builder/__init__.py:680-684): a `charset` attribute becomes a placeholder -/
 def subCharsetStep (attrs : List (PStr × AttrVal)) : List (PStr × AttrVal) :=
   match lookupAttr (ofS "charset") attrs with
+  | some .novalue => attrs     -- `charset is not None`
   | some cs => setAttr (ofS "charset") (.charsetMeta cs.str) attrs
   | none => attrs
+
+/-- `tag.get_attribute_list(key)` (element.py:2179-2200): a list value as it is, a string as a one-element list, `None` as
+    no element -/
+def attributeList : AttrVal → List PStr
+  | .list vs => vs
+  | .novalue => []
+  | v => [v.str]
+
+/-- `any(x.lower() == "content-type" for x in http_equiv)` -/
+def isContentType (he : AttrVal) : Bool := (attributeList he).any (fun x => asciiLower x = ofS "content-type")
 
 /-- HTML4 style (builder/__init__.py:686-692): `content` becomes a placeholder when `http-equiv` is `content-type` in any
     letter case -/
 def subContentStep (attrs : List (PStr × AttrVal)) : List (PStr × AttrVal) :=
   match lookupAttr (ofS "content") attrs, lookupAttr (ofS "http-equiv") attrs with
+  | some .novalue, _ => attrs  -- `content is not None`
   | some ct, some he =>
-    if asciiLower he.str = ofS "content-type" then setAttr (ofS "content") (.contentMeta ct.str) attrs else attrs
+    if isContentType he then setAttr (ofS "content") (.contentMeta ct.str) attrs else attrs
   | _, _ => attrs
 
 /-- `HTMLTreeBuilder.set_up_substitutions` (builder/__init__.py:642-694) on a parsed tag's attributes, as repaired: the two
@@ -303,8 +324,11 @@ def insertAttr (a : PStr × AttrVal) : List (PStr × AttrVal) → List (PStr × 
 /-- `Formatter.attributes`: sorted by key (formatter.py:170-190) -/
 def sortAttrs (l : List (PStr × AttrVal)) : List (PStr × AttrVal) := l.foldr insertAttr []
 
+/-- one attribute: `key` alone when the value is `None`, else `key="value"` -/
 def formatAttr (ev : Option PStr) (a : PStr × AttrVal) : PStr :=
-  a.1 ++ [61] ++ quotedAttributeValue (substituteXml (attrValue ev a.2))
+  match a.2 with
+  | .novalue => a.1
+  | v => a.1 ++ [61] ++ quotedAttributeValue (substituteXml (attrValue ev v))
 
 /-- `_format_tag(opening=True)` -/
 def openTag (ev : Option PStr) (name : PStr) (attrs : List (PStr × AttrVal)) (isEmpty : Bool) : PStr :=
@@ -371,6 +395,16 @@ def decodeContentsImpl (indent : Option Nat) (ev : Option PStr) : Node → PStr
     match indent with
     | none => decodeKids ev n ks
     | some l => prettyKids ev n l ks
+
+/-- `str(tag)` / `repr(tag)` / `tag.decode()`: `eventual_encoding` defaults to `DEFAULT_OUTPUT_ENCODING`, so a declared
+    charset IS rewritten (to `utf-8`) even though a str is produced; only `decode(eventual_encoding=None)` leaves it alone -/
+def strImpl (t : Node) : PStr := decodeImpl none (some defaultOutputEncoding) t
+
+/-- `tag.prettify()` without an encoding (element.py:2630-2631): `decode(indent_level=0)`, same default -/
+def prettifyStrImpl (t : Node) : PStr := decodeImpl (some 0) (some defaultOutputEncoding) t
+
+/-- `tag.decode_contents()` with its defaults -/
+def decodeContentsDefault (t : Node) : PStr := decodeContentsImpl none (some defaultOutputEncoding) t
 
 /-- `Tag.encode(encoding, indent_level, errors=…)` (element.py:2321-2348): `decode(indent_level, encoding)` then
     `u.encode(encoding, errors)` -/
